@@ -76,16 +76,21 @@ func hexs(s string) string { return "<" + hex.EncodeToString([]byte(s)) + ">" }
 
 // attachDoc builds a PDF with embedded files whose file specification names are the given raw strings.
 func attachDoc(fnames []string) []byte {
-	d := rawpdf.MarkerDoc([]rawpdf.PageSpec{{Marker: "P1", Rotate: -1}}, rawpdf.MarkerOpts{})
-	var pairs []string
 	keys := make([]string, len(fnames))
 	for i := range fnames {
-		keys[i] = fmt.Sprintf("key%02d", i)
+		keys[i] = fmt.Sprintf("key%04d", i)
 	}
+	return attachDocKeys(keys, fnames)
+}
+
+// attachDocKeys: name tree keys (must be sorted ascending by the caller) and file specification names are independent.
+func attachDocKeys(keys, fnames []string) []byte {
+	d := rawpdf.MarkerDoc([]rawpdf.PageSpec{{Marker: "P1", Rotate: -1}}, rawpdf.MarkerOpts{})
+	var pairs []string
 	for i, fn := range fnames {
 		ef := d.AddStream("/Type /EmbeddedFile", []byte(fmt.Sprintf("content of attachment %d", i)))
 		fs := d.Add(fmt.Sprintf("<< /Type /Filespec /F %s /UF %s /EF << /F %d 0 R >> >>", hexs(fn), hexs(fn), ef))
-		pairs = append(pairs, fmt.Sprintf("(%s) %d 0 R", keys[i], fs))
+		pairs = append(pairs, fmt.Sprintf("%s %d 0 R", hexs(keys[i]), fs))
 	}
 	cat := d.Objs[d.Root-1]
 	cat = strings.TrimSuffix(strings.TrimSpace(cat), ">>") + fmt.Sprintf(" /Names << /EmbeddedFiles << /Names [%s] >> >> >>", strings.Join(pairs, " "))
@@ -188,13 +193,14 @@ func e2e(runs, trace string, tier string, seed int64) {
 	}
 	tid, viol, nruns, collisions := 0, 0, 0, 0
 	run := func(kind string, nm []string, doc []byte, op func(in, out string) error, expectCollision bool) {
+		nAttach := strings.Count(string(doc), "/Type /Filespec")
 		sb := fsx.New()
 		defer sb.Close()
-		sb.Mkdir("out")
+		sb.Mkdir("w/x/out") // nested, so that ../../ stays inside the observed sandbox
 		sb.Mkdir("sibling")
 		sb.Put("sibling/keep.txt", []byte("keep"), 0644)
 		in := sb.Put("in/in.pdf", doc, 0644)
-		r := sb.Run(fsx.RunCfg{}, func() error { return op(in, sb.P("out")) })
+		r := sb.Run(fsx.RunCfg{}, func() error { return op(in, sb.P("w/x/out")) })
 		tid++
 		nruns++
 		rc := rec{T: tid, Kind: kind, Outcome: r.Outcome(), Verdict: "ok", Created: []string{}}
@@ -218,7 +224,7 @@ func e2e(runs, trace string, tier string, seed int64) {
 				name = name[:j]
 			}
 			rc.Created = append(rc.Created, d)
-			if d[0] != '+' || !strings.HasPrefix(name, "out/") || strings.Contains(name[4:], "/") {
+			if d[0] != '+' || !strings.HasPrefix(name, "w/x/out/") || strings.Contains(name[8:], "/") {
 				fail("escape", fmt.Sprintf("names %q: entry %s changed/created outside the output directory (or in a sub directory)", nm, d))
 			}
 		}
@@ -237,15 +243,15 @@ func e2e(runs, trace string, tier string, seed int64) {
 							files++
 						}
 					}
-					if files < len(nm) {
-						fail("silent overwrite", fmt.Sprintf("names %q map to the same file: %d attachments, %d files, no collision error", nm, len(nm), files))
+					if files < nAttach {
+						fail("silent overwrite", fmt.Sprintf("names %q map to the same file: %d attachments, %d files, no collision error", nm, nAttach, files))
 					}
 				} else if len(rc.Created) != 0 {
 					fail("collision after writing", fmt.Sprintf("names %q: collision reported but files were already written: %v", nm, rc.Created))
 				}
 			}
 		}
-		for _, l := range r.Lines(fsx.Meta{T: tid, Name: kind, Prot: []string{"in/in.pdf", "sibling/keep.txt"}, DestDirs: []string{"out"}, Judge: []string{"c05"}}) {
+		for _, l := range r.Lines(fsx.Meta{T: tid, Name: kind, Prot: []string{"in/in.pdf", "sibling/keep.txt"}, DestDirs: []string{"w/x/out"}, Judge: []string{"c05"}}) {
 			tw.Put(l)
 		}
 		w.Put(rc)
@@ -263,6 +269,23 @@ func e2e(runs, trace string, tier string, seed int64) {
 			run("bookmark-split", []string{n, "second"}, bookmarkDoc([]string{n, "second"}), func(in, out string) error { return api.SplitFile(in, out, 0, nil) }, false)
 			run("image", []string{n}, imageDoc(n), func(in, out string) error { return api.ExtractImagesFile(in, out, nil, nil) }, false)
 		}
+	}
+	// hostile name-tree KEYS combined with file names the sanitiser rejects (the fallback name must be safe too)
+	rejected := []string{".", "..", "../..", "", "a\x00b", "/", "\\", " . "}
+	hostileKeys := []string{"../../escaped.txt", "sub/escaped.txt", "/abs/escaped.txt", "..", "C:\\x.txt", "plain.txt"}
+	for _, k := range hostileKeys {
+		for _, fn := range rejected {
+			run("attach-key", []string{k, fn}, attachDocKeys([]string{k}, []string{fn}), func(in, out string) error { return api.ExtractAttachmentsFile(in, out, nil, nil) }, false)
+		}
+	}
+	// a colliding pair separated by many other attachments (collision detection must span the whole extraction)
+	for _, gap := range []int{1, 127, 130, 190} {
+		names := []string{"a/zz.txt"}
+		for i := 0; i < gap; i++ {
+			names = append(names, fmt.Sprintf("filler%04d.txt", i))
+		}
+		names = append(names, "a_zz.txt")
+		run("attach", []string{"a/zz.txt", "a_zz.txt", fmt.Sprintf("gap=%d", gap)}[:2], attachDoc(names), func(in, out string) error { return api.ExtractAttachmentsFile(in, out, nil, nil) }, true)
 	}
 	// pairs whose sanitised names coincide (collision candidates) and a few that do not
 	var san []string
